@@ -168,7 +168,72 @@ def child_context_summary(ctx):
               "createChildCgroupCtx does not open the child relative to cgroup_dir_")
 
 
+def children_are_direct(ctx):
+    """OomdContext::addChildrenToCacheAndGet(c) hands out the DIRECT children of c and nothing else: every child context comes from
+    addChildToCacheAndGet(c, name) with name drawn from c.children().  (The kill walk descends one level per step and stops at a
+    memory.oom.group cgroup by testing each level it is handed; a helper that skips levels would take those tests away - shared by C01
+    and C03.)  Closures inside the function are followed: a closure parameter has to be bound to c at every call of the closure."""
+    P = ctx.prog
+    f = ctx.fn1("Oomd::OomdContext::addChildrenToCacheAndGet")
+    ctx.use(f)
+    if len(f.params) != 1:
+        ctx.broken("children-are-direct", "anchor", f.loc(), "addChildrenToCacheAndGet no longer takes one parameter")
+        return
+    pn = f.params[0]["name"]
+    scope, stack = [f], list(P.lambdas_in(f))
+    while stack:
+        l = stack.pop()
+        scope.append(l)
+        stack.extend(P.lambdas_in(l))
+
+    def bound_to_parent(g, node):
+        """does expression `node` of g denote the function's parameter c?"""
+        t = Expander(P, g)(node)
+        if t == "param:" + pn and (g is f or not any(p_["name"] == pn for p_ in g.params)):
+            return True
+        m = re.match(r"^param:(\w+)$", t)
+        if g is f or not m:
+            return False
+        own = [k for k, p_ in enumerate(g.params) if p_["name"] == m.group(1)]
+        if not own:
+            return False
+        # the closure's own parameter: every call of the closure passes c there
+        holder = None
+        par = P.fns.get(g.d.get("parentfn"))
+        if par is None:
+            return False
+        for d_ in par.all("decl"):
+            for v_ in par.nodes[d_].get("vars", []):
+                if v_.get("init") is not None and v_.get("init", -1) >= 0 and any(par.nodes[y].get("usr") == g.usr for y in par.walk(v_["init"])):
+                    holder = v_["name"]
+        if holder is None:
+            return False
+        sites = [i for i in par.calls() if par.nodes[i].get("op") == "()" and par.text(par.nodes[i].get("recv", -1)) == holder]
+        return bool(sites) and all(len(par.nodes[i].get("args", [])) > own[0] and bound_to_parent(par, par.nodes[i]["args"][own[0]]) for i in sites)
+    n = 0
+    for g in scope:
+        for i in g.calls("addChildToCacheAndGet"):
+            n += 1
+            a = g.nodes[i].get("args", [])
+            ctx.check(bool(a) and bound_to_parent(g, a[0]), "children-are-direct:parent@%d" % g.nodes[i].get("line", 0), "provenance", g.loc(i),
+                      "child contexts are created below the cgroup that was asked for",
+                      "addChildrenToCacheAndGet creates child contexts below %s, not (only) below its argument: it can hand out cgroups that are not direct "
+                      "children, so the kill walk skips levels - and with them the memory.oom.group test of the skipped cgroups" % (Expander(P, g)(a[0]) if a else "?"))
+            nm = Expander(P, g)(a[1]) if len(a) > 1 else ""
+            m = re.match(r"^elem\(\*(.+)\.children\([^)]*\)\)$", nm)
+            okn = False
+            if m:
+                for j in g.calls("children"):
+                    if "recv" in g.nodes[j] and bound_to_parent(g, g.nodes[j]["recv"]):
+                        okn = True
+            ctx.check(okn, "children-are-direct:name@%d" % g.nodes[i].get("line", 0), "provenance", g.loc(i),
+                      "the child names are the entries of that cgroup's children()", "child name is " + nm[:100])
+    ctx.counters["child_creation_sites"] = n
+    ctx.floor("child_creation_sites", 1, "addChildToCacheAndGet calls in addChildrenToCacheAndGet")
+
+
 def run(ctx):
+    children_are_direct(ctx)
     configured_patterns(ctx)
     child_context_summary(ctx)
     # locals / parameters the rules below refer to by name (a rename makes the analysis 'broken', never a violation)
